@@ -60,11 +60,12 @@ class Emitter:
 
 
 def _row_items(em, rng, col, opts, style):
-  """Text items of one row starting at column `col` (1-based); keeps the row inside 32 columns."""
+  """Text items of one row starting at column `col` (1-based); the row stays inside the 32 columns."""
   n_items = rng.randint(1, 6)
   written = 0
+  last_wrote = False      # the previous item wrote a cell (BS and extended characters follow a character)
   for _ in range(n_items):
-    if col > 28:
+    if col > 29:
       break
     r = rng.random()
     if r < 0.62 or written == 0 and r < 0.8:
@@ -78,36 +79,45 @@ def _row_items(em, rng, col, opts, style):
         em.text(a, 0)
         col += 1
       written += 1
+      last_wrote = True
     elif r < 0.72 and "midrow" in opts:
       em.code(U.w_midrow(rng.randrange(16)), allow_ch2=False)
       em.features.add("midrow")
       col += 1
       written += 1
+      last_wrote = True
     elif r < 0.80 and "special" in opts:
       em.code(U.w_special(rng.randrange(16)), allow_ch2=False)
       em.features.add("special")
       col += 1
       written += 1
+      last_wrote = True
     elif r < 0.88 and "extended" in opts and written > 0:
       # customary: a standard stand-in character, then the extended character that replaces it
       em.text(rng.choice(LETTERS), 0)
       em.code(U.w_extended(rng.choice([2, 3]), rng.randrange(32)), allow_ch2=False)
       em.features.add("extended")
       col += 1
-    elif r < 0.93 and "bs" in opts and written > 0:
+      last_wrote = True
+    elif r < 0.93 and "bs" in opts and last_wrote:
       em.code(U.w_ctl("BS"), allow_ch2=False)
       em.features.add("bs")
       col -= 1
+      last_wrote = False
     elif r < 0.97 and "to" in opts:
       k = rng.randint(1, 3)
       em.code(U.w_ctl("TO%d" % k), allow_ch2=False)
       em.features.add("to_midrow_position")
       col += k
+      last_wrote = False
     elif "der" in opts and style == "painton":
       em.code(U.w_ctl("DER"), allow_ch2=False)
       em.features.add("der")
   if written == 0:
-    em.text(rng.choice(LETTERS), rng.choice(LETTERS))
+    if col <= 31:
+      em.text(rng.choice(LETTERS), rng.choice(LETTERS))
+    else:
+      em.text(rng.choice(LETTERS), 0)
   return col
 
 
@@ -161,14 +171,16 @@ def gen_stream(rng, style=None, plain=False, doubling=None):
     clock = start + len(em.words)
     feats.update(em.features)
 
+  styles = [style] + [rng.choice(["popon", "rollup", "painton"]) if mixed else style for _ in range(ncap - 1)]
   for cap in range(ncap):
-    st = rng.choice(["popon", "rollup", "painton"]) if mixed and cap > 0 else style
+    st = styles[cap]
     if st != style:
       feats.add("mode_switch")
     em = Emitter(rng, doubling, p_null, p_ch2)
     if st == "popon":
       em.code(U.w_ctl("RCL"))
-      if "enm" in opts:
+      # entering pop-on from another protocol: the non-displayed memory is erased explicitly
+      if "enm" in opts or (cap > 0 and styles[cap - 1] != "popon"):
         em.code(U.w_ctl("ENM"))
         em.features.add("enm")
       rows = rng.sample(range(1, 16), rng.randint(1, 4))
@@ -184,6 +196,14 @@ def gen_stream(rng, style=None, plain=False, doubling=None):
     elif st == "rollup":
       em.code(U.w_ctl("RU%d" % depth))
       em.code(U.w_ctl("CR"))
+      if (not plain) and rng.random() < 0.08:
+        # a blank line: a second carriage return, separated from the first pair by padding or a channel-2 word
+        if rng.random() < 0.5:
+          em.words.append(0)
+        else:
+          em.words.append(U.w_ctl("EDM", 2))
+        em.code(U.w_ctl("CR"), allow_ch2=False)
+        em.features.add("double_roll")
       if base != 15:
         em.features.add("rollup_base_not_15")
       col = _pac(em, rng, base, opts)
@@ -202,8 +222,9 @@ def gen_stream(rng, style=None, plain=False, doubling=None):
     new_line(em, 0 if cap == 0 else rng.choice([0, 0, 1, 5, rng.randint(2, 90)]))
     # an erase line after the caption (always before a change of protocol unless told otherwise)
     r = rng.random()
-    nxt_differs = mixed
-    if r < 0.45 or (nxt_differs and r < 0.9) or (cap == ncap - 1 and r < 0.7):
+    # the protocols are left through an erase: a change of protocol is always preceded by an EDM line
+    nxt_differs = cap + 1 < ncap and styles[cap + 1] != st
+    if r < 0.45 or nxt_differs or (cap == ncap - 1 and r < 0.7):
       em2 = Emitter(rng, doubling, p_null, 0)
       em2.code(U.w_ctl("EDM"), allow_ch2=False)
       new_line(em2, rng.choice([0, 3, rng.randint(1, 120)]))
